@@ -112,17 +112,18 @@ def parse_structs(inc):
     return structs
 
 
-def layout_table(structs, lang, inc, tmp):
-    lines = ['#include <stdio.h>', '#include <stddef.h>', '#include "tfhe.h"', "int main(void) {"]
+def layout_table(structs, lang, inc, tmp, first=None):
+    lines = ['#include <stdio.h>', '#include <stddef.h>'] + (['#include "%s"' % first] if first else []) + ['#include "tfhe.h"', "int main(void) {"]
     for s, d in sorted(structs.items()):
         lines.append('printf("%s sizeof %%lu\\n", (unsigned long) sizeof(struct %s));' % (s, s))
         for f in d["c"]:
             lines.append('printf("%s.%s off %%lu size %%lu\\n", (unsigned long) offsetof(struct %s, %s), (unsigned long) sizeof(((struct %s*)0)->%s));'
                          % (s, f, s, f, s, f))
     lines += ["return 0;", "}"]
-    src = os.path.join(tmp, "layout." + ("c" if lang == "c" else "cpp"))
+    tag = (first or "umbrella").replace(".", "_").replace("-", "_")
+    src = os.path.join(tmp, "layout_%s.%s" % (tag, "c" if lang == "c" else "cpp"))
     open(src, "w").write("\n".join(lines))
-    exe = os.path.join(tmp, "layout_" + lang)
+    exe = os.path.join(tmp, "layout_%s_%s" % (lang, tag))
     cc = "gcc -std=c99" if lang == "c" else "g++ -std=gnu++11 -Wno-invalid-offsetof"
     rc, o = sh("%s -I%s %s -o %s" % (cc, inc, src, exe))
     if rc:
@@ -226,6 +227,20 @@ def run(tier, seed, t0):
             if len(lc) != len(lp):
                 viols.append(("abi:layout-differs:table-length", {"c99": len(lc), "c++11": len(lp)}, None))
             samples.append({"layout_rows": len(lc), "first_rows": lc[:6]})
+            # the layout a C program sees must not depend on which public header it includes first
+            orders = 0
+            for h in hdrs:
+                for lang in ("c", "cpp"):
+                    th, oh = layout_table(structs, lang, inc, tmp, first=h)
+                    decisions += 1
+                    orders += 1
+                    cells["layout-order:%s:%s-first" % (lang, h)] = 1
+                    if th is None:
+                        viols.append(("abi:layout-probe-does-not-compile:%s-first:%s" % (h, lang), {"output": oh[-1200:]}, None))
+                    elif th != tp:
+                        diff = [(a, b) for a, b in zip(th.splitlines(), lp) if a != b][:6]
+                        viols.append(("abi:layout-depends-on-include-order:%s:%s-first" % (lang, h), {"differing_rows(this order, reference)": diff}, None))
+            samples.append({"include_orders_checked": orders})
         # (v) offsets hard-coded in the spqlios assembly
         src = os.path.join(tmp, "asmoff.cpp")
         open(src, "w").write('#include <stdio.h>\n#include <stddef.h>\n#include "lagrangehalfc_impl.h"\nint main(){printf("%lu %lu %lu %lu\\n",'
